@@ -606,8 +606,9 @@ func isoCases(s *cases.Set, r *cq.RNG, thorough bool) {
 
 // filler sets random values; full = every pointer set and every slice non-empty (so that every field is reachable).
 type filler struct {
-	r    *cq.RNG
-	full bool
+	r     *cq.RNG
+	full  bool
+	small bool // no length ladder (the cases whose values are written out as Gallina terms)
 }
 
 var (
@@ -634,7 +635,7 @@ func (f filler) fill(v reflect.Value) {
 	switch {
 	case t == tHex:
 		switch {
-		case f.r.Intn(8) == 0:
+		case !f.small && f.r.Intn(8) == 0:
 			v.SetBytes(f.r.Bytes(ladder[f.r.Intn(len(ladder)-1)])) // up to 1024 bytes
 		case f.full || f.r.Intn(3) != 0:
 			v.SetBytes(f.r.Bytes(1 + f.r.Intn(12)))
@@ -925,6 +926,7 @@ func main() {
 	structCases(s, r.Fork(), thorough)
 	isoCoqCases(s, r.Fork(), thorough)
 	jsonCases(s, r.Fork(), thorough)
+	structCoqCases(s, r.Fork(), thorough)
 	if err := s.Finish(); err != nil {
 		fmt.Fprintln(os.Stderr, err)
 		os.Exit(2)
